@@ -57,6 +57,7 @@ fn main() {
         "C11" => props::c11::run(tier),
         "C12" => props::c12::run(tier),
         "C13" => props::c13::run(tier),
+        "C14" => props::c14::run(tier),
         "C15" => props::c15::run(tier),
         "C17" => props::c17::run(tier),
         other => {
